@@ -23,7 +23,7 @@ LEVEL_NOTE = "TRUC/dust shape after disconnections is not demanded (excluded by 
 
 
 def runs(tier, seed):
-    n = 30 if tier == "quick" else 600
+    n = 30 if tier == "quick" else 320
     return [Run("mempoolsim", cases=n, params={"class": "limits", "mon": "limits"}, timeout=3000 if tier == "quick" else 14000)]
 
 
